@@ -15,26 +15,60 @@ AllocBound(n, lim, mx) ==
 \* re-encoding gives the same bytes).  Only for such inputs does the property fix WHAT must be returned (C03);
 \* for all other byte strings it demands totality, a well-formed and stable result, and the limit / memory rules -
 \* whether a malformed input is accepted or rejected, and with which error, is left to the implementation.
-Standard(c, d) ==
-  /\ d.ok /\ d.pos = Len(c.bytes) /\ Len(c.bytes) > 0 /\ c.bytes[1] \in {0, 1}
-  /\ EncC(d.g, IF c.bytes[1] = 0 THEN "XDR" ELSE "NDR",
-          IF c.flavor = "ewkb" THEN "ewkb" ELSE IF c.nan THEN "wkbnan" ELSE "wkb", TRUE) = c.bytes
+Standard(b, c, d) ==
+  /\ d.ok /\ d.pos = Len(b) /\ Len(b) > 0 /\ b[1] \in {0, 1}
+  /\ EncC(d.g, IF b[1] = 0 THEN "XDR" ELSE "NDR",
+          IF c.flavor = "ewkb" THEN "ewkb" ELSE IF c.nan THEN "wkbnan" ELSE "wkb", TRUE) = b
+\* via = "hexstr": the hex wrapper is handed an ARBITRARY string (hexcodes = its characters).  A string that is the hex
+\* image of a byte string (even length, digits of either letter case) is that byte string; any other string is the image
+\* of no byte string: for it the property demands termination without panic and an error or a well-formed, stable result.
+HexVal(ch) == IF ch >= 48 /\ ch <= 57 THEN ch - 48 ELSE IF ch >= 97 /\ ch <= 102 THEN ch - 87
+              ELSE IF ch >= 65 /\ ch <= 70 THEN ch - 55 ELSE -1
+HexValid(s) == Len(s) % 2 = 0 /\ \A k \in DOMAIN s : HexVal(s[k]) >= 0
+HexBytes(s) == [k \in 1..(Len(s) \div 2) |-> 16 * HexVal(s[2 * k - 1]) + HexVal(s[2 * k])]
+NoBytes(c) == c.via = "hexstr" /\ ~HexValid(c.hexcodes)
+InBytes(c) == IF c.via = "hexstr" THEN (IF HexValid(c.hexcodes) THEN HexBytes(c.hexcodes) ELSE <<>>) ELSE c.bytes
+\* a typed SQL wrapper can hold one geometry type only: the standard encoding of another type is not valid input for it
+Fits(c, d) == IF c.via = "sql" /\ c.wrap # "ANY" THEN c.wrap = d.g.t ELSE TRUE
+\* a deeply nested result is recorded as its preorder node list r.pre (the JSON reader refuses documents nested deeper
+\* than 255): Match(g, s, p) = the position behind the image of tree g in s from position p, 0 if s differs from it
+RECURSIVE Match(_, _, _)
+RECURSIVE MatchKids(_, _, _, _)
+MatchKids(ks, k, s, p) == IF p = 0 \/ k > Len(ks) THEN p ELSE MatchKids(ks, k + 1, s, Match(ks[k], s, p))
+Match(g, s, p) ==
+  IF p = 0 \/ p > Len(s) THEN 0
+  ELSE IF s[p].t # g.t \/ s[p].l # g.l \/ s[p].srid # g.srid THEN 0
+  ELSE IF g.t = "GC" THEN (IF s[p].n # Len(g.body) THEN 0 ELSE MatchKids(g.body, 1, s, p + 1))
+  ELSE IF s[p].n = 0 /\ s[p].body = g.body THEN p + 1 ELSE 0
+\* Evaluating the reference decoder costs TLC time quadratic in the nesting depth of the input (its evaluation context
+\* grows with the depth of recursion).  An input the generator marks "noref" (collection headers nested thousands deep) is
+\* not decoded here: for it only what the property says of EVERY byte string is demanded - no panic, no hang, no crash,
+\* a well-formed result that survives re-encoding - and the memory bound with the largest count (64) that the property's
+\* domain admits when a limit is off.
+NoRef(c) == "noref" \in DOMAIN c
 Clause(r) ==
-  LET c == r.case  d == Decode(c.bytes, c.flavor, c.nan, c.lim) IN
+  LET c == r.case
+      nb == NoBytes(c)
+      b == InBytes(c)
+      d == Decode(b, c.flavor, c.nan, c.lim)
+      std == ~nb /\ Standard(b, c, d) IN
   CASE r.ev = "notrun" -> "ok"          \* the driver stopped this chunk after repeated crashes (each one reported)
     [] r.ev # "ok" -> r.ev
     [] r.errclass = "panic" -> "panic"
-    [] ~d.ok /\ d.err = "toolarge" /\ r.ok -> "accepts-invalid:toolarge"
-    [] ~d.ok /\ d.err = "toolarge" /\ r.errclass # "toolarge" -> "limit-not-reported"
-    [] r.alloc > AllocBound(Len(c.bytes), c.lim, d.mx) -> "allocation-unbounded"
+    [] NoRef(c) /\ r.alloc > AllocBound(Len(b), c.lim, 64) -> "allocation-unbounded"
+    [] ~NoRef(c) /\ ~nb /\ ~d.ok /\ d.err = "toolarge" /\ r.ok -> "accepts-invalid:toolarge"
+    [] ~NoRef(c) /\ ~nb /\ ~d.ok /\ d.err = "toolarge" /\ r.errclass # "toolarge" -> "limit-not-reported"
+    [] ~NoRef(c) /\ r.alloc > (IF nb THEN AllocBound(Len(c.hexcodes), c.lim, 0) ELSE AllocBound(Len(b), c.lim, d.mx)) -> "allocation-unbounded"
     [] r.ok /\ \E k \in DOMAIN r.wf : ~(r.wf[k].k \in FG!Kinds /\ FG!WellFormedObj(r.wf[k])) -> "ill-formed-result"
     [] r.ok /\ ~(r.re = "ok" /\ r.d2 = r.d1) -> "not-canonical"
-    [] Standard(c, d) /\ ~r.ok -> "rejects-valid:" \o r.errclass
-    [] Standard(c, d) /\ r.g # d.g -> "decoded-geometry-differs"
-    [] Standard(c, d) /\ c.via = "" /\ r.consumed # d.pos -> "bytes-consumed"
+    [] NoRef(c) -> "ok"
+    \* (a wrapper that reports success and holds no geometry - errclass "null" - counts as a refusal)
+    [] std /\ Fits(c, d) /\ ~r.ok -> "rejects-valid:" \o r.errclass
+    [] std /\ r.ok /\ (IF r.deep THEN Match(d.g, r.pre, 1) # Len(r.pre) + 1 ELSE r.g # d.g) -> "decoded-geometry-differs"
+    [] std /\ c.via = "" /\ r.consumed # d.pos -> "bytes-consumed"
     [] OTHER -> "ok"
 \* informational (not a verdict): disagreement with the reference decoder on non-standard input
-Differs(r) == LET c == r.case  d == Decode(c.bytes, c.flavor, c.nan, c.lim) IN r.ev = "ok" /\ (d.ok # r.ok \/ (d.ok /\ r.ok /\ r.g # d.g))
+Differs(r) == LET c == r.case  d == Decode(InBytes(c), c.flavor, c.nan, c.lim) IN r.ev = "ok" /\ (d.ok # r.ok \/ (d.ok /\ r.ok /\ r.g # d.g))
 VARIABLES i, bad
 Init == i = 1 /\ bad = 0
 Next == /\ i <= Len(Recs)
@@ -43,5 +77,10 @@ Next == /\ i <= Len(Recs)
               ELSE PrintT(<<"VIOL", ToJson([i |-> i, sig |-> "wkbdec|" \o c])>>)
            /\ bad' = IF c = "ok" THEN bad ELSE bad + 1
         /\ i' = i + 1
+\* domain pass for the seeded generators (tools/props/c04.py): the largest count field the reference decoder meets in a
+\* candidate input with all limits off; only candidates whose counts are backed by input are run with a limit disabled
+NextDom == /\ i <= Len(Recs)
+           /\ PrintT(<<"DOM", ToJson([i |-> i, mx |-> Decode(InBytes(Recs[i]), Recs[i].flavor, Recs[i].nan, <<-1, -1, -1>>).mx])>>)
+           /\ i' = i + 1 /\ bad' = bad
 Done == i = Len(Recs) + 1 => PrintT(<<"SUMMARY", ToJson([n |-> Len(Recs), bad |-> bad])>>)
 ====
